@@ -380,6 +380,15 @@ class ForestScenario(explore.Scenario):
                     out.append(["mods", ir, "setslice", a, b, L])
                 for (a, b, c) in exts:
                     out.append(["mods", ir, "setext", a, b, c, L])
+            if self.live_ops:
+                # a live iterator across a mutation (worklist loops): the
+                # built-in list iterator follows the current contents
+                for m in mods:
+                    if m not in w.model.mods[ir]:
+                        out.append(["mods", ir, "iter_append", m])
+                        out.append(["mods", ir, "iter_insert0", m])
+                        if n:
+                            out.append(["mods", ir, "iter_setitem", n - 1, m])
             if self.live_ops and mods:
                 out.append(["mods", ir, "extend_gen", mods[:2]])
                 out.append(["mods", ir, "setslice_gen", 0, 1, mods[:2]])
@@ -591,6 +600,17 @@ class ForestScenario(explore.Scenario):
                     sh.insert(op[3], op[4])
                 elif m == "setitem":
                     sh[op[3]] = op[4]
+                elif m in ("iter_append", "iter_insert0", "iter_setitem"):
+                    it = iter(sh)
+                    seen_ = [next(it, None)]
+                    if m == "iter_append":
+                        sh.append(op[3])
+                    elif m == "iter_insert0":
+                        sh.insert(0, op[3])
+                    else:
+                        sh[op[3]] = op[4]
+                    seen_ += list(it)
+                    ret = ("seq", seen_)
                 elif m in ("extend", "extend_gen"):
                     sh.extend(op[3])
                 elif m == "iadd":
@@ -697,6 +717,17 @@ class ForestScenario(explore.Scenario):
                 if m == "setitem":
                     L[op[3]] = O[op[4]]
                     return None, None
+                if m in ("iter_append", "iter_insert0", "iter_setitem"):
+                    it = iter(L)
+                    seen_ = [next(it, None)]
+                    if m == "iter_append":
+                        L.append(O[op[3]])
+                    elif m == "iter_insert0":
+                        L.insert(0, O[op[3]])
+                    else:
+                        L[op[3]] = O[op[4]]
+                    seen_ += list(it)
+                    return [w.name_of(x) for x in seen_], None
                 if m == "extend":
                     return L.extend(objs(op[3])), None
                 if m == "extend_gen":
@@ -884,6 +915,8 @@ class ForestScenario(explore.Scenario):
                 ok = res in rv
             elif rk == "value":
                 ok = w.name_of(res) == rv
+            elif rk == "seq":
+                ok = res == rv
             if not ok:
                 v.append(("C16/return:%s" % tag,
                           "op %s returned %r, expected %s %r"
